@@ -374,6 +374,12 @@ class Verdict:
         return True
 
     def finish(self):
+        # the repository's own test programs as traces against the root specification (vf/p_suite.py): mismatches
+        # attributed to this property are violations of it
+        if self.pid in SUITE_PROPS and not os.environ.get("VERIF_NO_SUITE") and not getattr(self, "_suite_done", False):
+            self._suite_done = True
+            from . import p_suite
+            SUITE_COV[self.pid] = p_suite.report(self.pid, self)
         for fp, what in self.known:
             print("KNOWN-FINDING: property=%s %s [%s]" % (self.pid, what, fp))
         seen = set()
@@ -386,8 +392,17 @@ class Verdict:
         return 1 if self.violations else 0
 
 
+SUITE_PROPS = ("C01", "C02", "C03", "C07", "C09", "C10", "C11", "C12", "C13", "C15", "C20")
+SUITE_COV = {}
+
+
 def write_evidence(pid, tier, seed, level, coverage, assumptions, wall_s, violations):
+    if os.environ.get("VERIF_KEEP_EVIDENCE"):      # runs against a modified tree (seeded changes, mutants) leave the evidence alone
+        return
     os.makedirs(os.path.join(VERIF, "evidence"), exist_ok=True)
+    if pid in SUITE_COV:
+        coverage = dict(coverage)
+        coverage["suite_traces"] = dict(SUITE_COV[pid], rule="every tests/tst-*.c of the working tree run under shim/shim.c (link-time --wrap of the public API, files snapshotted before every read, object dumped after every creating/changing call); the recorded histories validated by Trace_Econf against the root specification; mismatches are attributed to a property by the kind of the rejected event")
     ev = {"property_id": pid, "tier": tier, "seed": int(seed), "level": level, "coverage": coverage,
           "assumptions": assumptions, "wall_s": round(wall_s, 2), "violations": int(violations)}
     tmp = os.path.join(VERIF, "evidence", pid + ".json.tmp")
